@@ -127,26 +127,46 @@ fn play_stereo() {
     all_splits(true);
 }
 
-/// C15, VTX header + strings block: every 16-byte header (symbolic: magic, stereo byte, loop frame,
-/// chip and player frequency, year, declared size) in front of each of the enumerated strings
-/// blocks (well-formed, truncated inside a string, missing, no terminator at all, empty strings,
-/// one terminator short) and every truncation of the header itself gives Ok or Err - no panic,
-/// no endless loop, never a track with player frequency 0.
-/// BOUNDED: strings blocks enumerated (concrete bytes; their contents only steer the scan loop);
-/// the LH5 payload is excluded (declared frame size 0 or the loader fails before decoding):
-/// delharc internals and String::from_utf8_lossy (stubbed: the strings are not part of any
-/// property) are out of reach.
+/// C15, VTX header + strings block. CBMC does not prune paths behind `assume`, so every header
+/// byte that steers the loader (magic, stereo mode, player frequency, declared size) is enumerated
+/// concretely and only the bytes it merely stores (loop frame, chip frequency, year) stay symbolic:
+/// 7 header variants in front of a well-formed strings block, 7 strings-block variants (well
+/// formed, truncated inside a string, missing, no terminator, empty strings, one terminator short)
+/// behind a well-formed header with declared size 0, and 5 truncations of the header itself.
+/// Every case gives Ok or Err - no panic, no endless loop, never a track with player frequency 0,
+/// never an accepted size that is too big or not a multiple of 14.
+/// BOUNDED: enumerated cases; the LH5 payload is excluded (declared size 0): delharc internals and
+/// String::from_utf8_lossy (stubbed: the strings are not part of any property) are out of reach.
 fn lossy_stub(_v: &[u8]) -> std::borrow::Cow<'_, str> {
     std::borrow::Cow::Borrowed("")
 }
 
-fn vtx_header_case(hdr: &[u8; 16], tail: &[u8], len: usize) -> bool {
+#[derive(Clone, Copy)]
+struct Hdr {
+    magic: [u8; 2],
+    stereo: u8,
+    pfreq: u8,
+    size: u32,
+}
+
+fn vtx_case(h: Hdr, sym: &[u8; 8], tail: &[u8], len: usize) -> bool {
     let mut data = [0u8; 32];
-    let mut i = 0;
-    while i < 16 {
-        data[i] = hdr[i];
-        i += 1;
-    }
+    data[0] = h.magic[0];
+    data[1] = h.magic[1];
+    data[2] = h.stereo;
+    data[3] = sym[0];
+    data[4] = sym[1];
+    data[5] = sym[2];
+    data[6] = sym[3];
+    data[7] = sym[4];
+    data[8] = sym[5];
+    data[9] = h.pfreq;
+    data[10] = sym[6];
+    data[11] = sym[7];
+    data[12] = h.size as u8;
+    data[13] = (h.size >> 8) as u8;
+    data[14] = (h.size >> 16) as u8;
+    data[15] = (h.size >> 24) as u8;
     let mut j = 0;
     while j < tail.len() {
         data[16 + j] = tail[j];
@@ -156,6 +176,8 @@ fn vtx_header_case(hdr: &[u8; 16], tail: &[u8], len: usize) -> bool {
     if let Ok(v) = &r {
         kani::assert(v.player_frequency != 0, "C15/C20: a loaded track never has player frequency 0");
         kani::assert(v.frame_data.len() == 0, "C15: no frame data was declared");
+        kani::assert(h.size == 0, "C15: a declared frame size that is too big or not a multiple of 14 is rejected");
+        kani::assert(v.loop_start_frame == (sym[0] as u16) | ((sym[1] as u16) << 8), "C20: loop frame is the header field");
     }
     if len < 16 {
         kani::assert(r.is_err(), "C15: truncated VTX header is an error");
@@ -163,55 +185,52 @@ fn vtx_header_case(hdr: &[u8; 16], tail: &[u8], len: usize) -> bool {
     r.is_ok()
 }
 
-fn vtx_headers(decode: bool) {
-    let hdr: [u8; 16] = kani::any();
-    // the LH5 decoder (delharc) is out of reach: `decode` selects whether the declared size is 0
-    // (the decoder is entered with nothing to decode; concrete size field) or one the loader must
-    // reject before decoding (symbolic)
-    let mut hdr = hdr;
-    if decode {
-        hdr[12] = 0;
-        hdr[13] = 0;
-        hdr[14] = 0;
-        hdr[15] = 0;
-    } else {
-        let size = (hdr[12] as u32) | ((hdr[13] as u32) << 8) | ((hdr[14] as u32) << 16) | ((hdr[15] as u32) << 24);
-        kani::assume(size > 64 * 1024 * 1024 || size % 14 != 0);
-    }
-    let mut any_ok = false;
-    // truncated headers
-    let lens: [usize; 5] = [0, 1, 2, 3, 15];
-    let mut i = 0;
-    while i < 5 {
-        any_ok |= vtx_header_case(&hdr, b"", lens[i]);
-        i += 1;
-    }
-    // strings blocks
-    any_ok |= vtx_header_case(&hdr, b"t\0a\0f\0k\0c\0", 26);
-    any_ok |= vtx_header_case(&hdr, b"t\0a\0", 20);
-    any_ok |= vtx_header_case(&hdr, b"t\0au", 20);
-    any_ok |= vtx_header_case(&hdr, b"", 16);
-    any_ok |= vtx_header_case(&hdr, b"abcdefgh", 24);
-    any_ok |= vtx_header_case(&hdr, b"\0\0\0\0\0", 21);
-    any_ok |= vtx_header_case(&hdr, b"\0\0\0\0", 20);
-    if decode {
-        kani::cover!(any_ok);
-    } else {
-        kani::assert(!any_ok, "C15: a declared frame size that is too big or not a multiple of 14 is rejected");
-    }
-    kani::cover!(!any_ok);
-}
-
 #[kani::proof]
 #[kani::unwind(260)]
 #[kani::stub(std::string::String::from_utf8_lossy, lossy_stub)]
 fn vtx_load_header() {
-    vtx_headers(false);
+    let sym: [u8; 8] = kani::any();
+    let good = Hdr { magic: *b"ay", stereo: 1, pfreq: 50, size: 0 };
+    let tail = b"t\0a\0f\0k\0c\0";
+    let ok = vtx_case(good, &sym, tail, 26);
+    kani::assert(ok, "C15/C20: a well-formed empty track loads");
+    let ok_ym = vtx_case(Hdr { magic: *b"ym", ..good }, &sym, tail, 26);
+    kani::cover!(ok_ym);
+    let bad = [
+        Hdr { magic: *b"zz", ..good },
+        Hdr { stereo: 0xEE, ..good },
+        Hdr { pfreq: 0, ..good },
+        Hdr { size: 13, ..good },
+        Hdr { size: 14 * 4_800_000, ..good },
+    ];
+    let mut i = 0;
+    while i < 5 {
+        let r = vtx_case(bad[i], &sym, tail, 26);
+        kani::assert(!r, "C15: an invalid VTX header is rejected");
+        i += 1;
+    }
+    kani::cover!(true);
 }
 
 #[kani::proof]
 #[kani::unwind(260)]
 #[kani::stub(std::string::String::from_utf8_lossy, lossy_stub)]
-fn vtx_load_empty_track() {
-    vtx_headers(true);
+fn vtx_load_strings() {
+    let sym: [u8; 8] = kani::any();
+    let good = Hdr { magic: *b"ay", stereo: 1, pfreq: 50, size: 0 };
+    let lens: [usize; 5] = [0, 1, 2, 3, 15];
+    let mut i = 0;
+    while i < 5 {
+        vtx_case(good, &sym, b"", lens[i]);
+        i += 1;
+    }
+    let mut any_ok = false;
+    any_ok |= vtx_case(good, &sym, b"t\0a\0", 20);
+    any_ok |= vtx_case(good, &sym, b"t\0au", 20);
+    any_ok |= vtx_case(good, &sym, b"", 16);
+    any_ok |= vtx_case(good, &sym, b"abcdefgh", 24);
+    any_ok |= vtx_case(good, &sym, b"\0\0\0\0", 20);
+    kani::assert(!any_ok, "C15: a strings block without five terminated strings is rejected");
+    let empty = vtx_case(good, &sym, b"\0\0\0\0\0", 21);
+    kani::cover!(empty);
 }
